@@ -176,13 +176,18 @@ LoadFams == <<"lin", "sat", "step", "near_sat">>
 \*   "over" increasing, but the middle point asks for a pore far beyond the range (1.3 x the largest size the methods
 \*   determine, 10 nm for slits, 5 nm radius otherwise): the analysis may stop there, but whatever it reports - before or
 \*   after - must still belong to the pressure / loading it is reported with.
-Perms == <<"id", "swap", "id", "rev", "over">>
+\*   "dup"  increasing, but one point repeats the pressure of the point before it (a duplicate measurement with a
+\*   larger loading): two points solved to the same width, the derivative there is undefined - the three result arrays
+\*   must still have one entry per interval and stay aligned.
+Perms == <<"id", "swap", "id", "rev", "over", "dup">>
+DupIdx(perm, N) == IF perm = "dup" THEN (N \div 2) + 1 ELSE 0
 CutoffL(geo) == DDiv(DInt(10), DInt(GeoFactor(geo)))
 OverL(geo) == DMul(DL(13, -1), CutoffL(geo))
 OverIdx(perm, N) == IF perm = "over" THEN N \div 2 ELSE 0
 PermIdx(perm, N, j) ==
    CASE perm = "id" -> j
      [] perm = "over" -> j
+     [] perm = "dup" -> j
      [] perm = "rev" -> N + 1 - j
      [] perm = "swap" -> LET hf == N \div 2 IN
                          IF j <= hf THEN j ELSE IF (j - hf) % 2 = 1 THEN (IF j + 1 <= N THEN j + 1 ELSE j) ELSE j - 1
@@ -209,7 +214,7 @@ Scenarios ==
                     a == (i \div (nM * nG * nH)) % nA  t == (i \div (nM * nG * nH * nA)) % nT
                 IN [id |-> i, model |-> Models[m + 1], geo |-> Geos[g + 1], h |-> AdsorbentIds[h + 1], a |-> AdsorbateIds[a + 1],
                     T |-> Temps[t + 1], fam |-> LoadFams[((m + g + h + a + t) % 4) + 1], npts |-> NPts[((g + h + 2 * a + t) % 3) + 1],
-                    perm |-> Perms[((m + 3 * g + h + 2 * a + t) % 5) + 1]]
+                    perm |-> Perms[((m + 3 * g + h + 2 * a + t) % 6) + 1]]
    IN [i \in 1..total |-> Mk(i - 1)]
 
 \* Histories through psd_microporous(adsorbate_model=None): the adsorbate parameters (incl. the liquid density at the
@@ -305,7 +310,7 @@ Judge(q) ==
                      {j \in 1..(k - 2) : DLeq(tg[j], tg[j + 1]) /\ DLeq(tg[j + 1], tg[j + 2]) /\ ~NonFinite(q.w[j]) /\ ~NonFinite(q.w[j + 1])
                                          /\ DLt(q.w[j + 1], DMul(q.w[j], DSub(DInt(1), Eps3)))}
        \* slit round trip: the solved widths are the chosen ones
-       badRT == IF Len(q.chosen) = 0 THEN {} ELSE {j \in 1..k : ~RelW(W[j], q.chosen[j], Eps3)}
+       badRT == IF Len(q.chosen) = 0 THEN {} ELSE {j \in 1..k : ~NonFinite(q.chosen[j]) /\ ~RelW(W[j], q.chosen[j], Eps3)}
        \* the library's potential at the reported length IS the published one (where the specification holds it)
        pub == Published(q.family, q.geo)
        badPub == IF pub = "none" THEN {} ELSE
